@@ -84,6 +84,7 @@ class OperatorTemplate(AbstractBaseTemplate):
                 pass  # pass equations string to constructor
             # else, update according to predefined rules, assuming dict structure
             elif isinstance(equations, dict):
+                equations = dict(equations)  # the caller's (or the cached YAML) edit dictionary is left as it is
                 new_eqs = equations.pop('add', [])
                 equations = [_update_equation(eq, **equations) for eq in self.equations] + new_eqs
             else:
@@ -95,7 +96,8 @@ class OperatorTemplate(AbstractBaseTemplate):
         if variables:
             variables = _update_variables(self.variables, variables)
         else:
-            variables = self.variables
+            # a copy: variables that the new equations do not use are removed below, which must not reach the parent
+            variables = dict(self.variables)
 
         rogue_variables = set()
         for var in variables:
